@@ -455,6 +455,10 @@ def attachment_extract_fails(exp: dict, got: dict) -> list:
         by_mime = e[1] in MIME_TYPE_MAPPING
         if not (by_name or by_mime):
             continue
+        if not by_mime:
+            # "supported attachment" is read as the library documents it (EmailAttachment.is_supported_mime_type): a file whose
+            # MIME label is not in the supported list (e.g. a .docx sent as application/octet-stream) is skipped by design
+            continue
         if e[0] is not None and e[0] != g[0]:
             continue                                   # wrong name is reported by att_name
         clause = "att_extract" if (by_name and by_mime) or (e[0] is None and by_mime) else (
